@@ -1324,17 +1324,19 @@ func (p *PubSub) handleAddRelay(req *addRelayReq) {
 		p.rt.Join(topic)
 	}
 
-	// flag used to prevent calling cancel function multiple times
-	isCancelled := false
+	// The cancel function releases this one reference exactly once, no matter
+	// how often and from how many goroutines it is called. (A plain flag that
+	// was checked before and set after the hand-off let two concurrent calls
+	// both through, which released a reference held by somebody else.)
+	var cancelled atomic.Bool
 
 	relayCancelFunc := func() {
-		if isCancelled {
+		if !cancelled.CompareAndSwap(false, true) {
 			return
 		}
 
 		select {
 		case p.rmRelay <- topic:
-			isCancelled = true
 		case <-p.ctx.Done():
 		}
 	}
